@@ -325,6 +325,12 @@ def check(repo):
     _check_loader_and_echo(repo, r3, states)
     _check_artifact_names(repo, r3)
 
+    # ------------------------------------------------------------------ R10.6 a closed connection cannot overwrite its successor's state
+    r6 = Rule("R10.6", "a closed connection's snapshot is not written back over a later connection's accepted requests")
+    rules.append(r6)
+    from .c12 import check_writeback_freshness
+    check_writeback_freshness(repo, r6)
+
     # ------------------------------------------------------------------ R10.4 who may write
     r4 = Rule("R10.4", "only the two uploading handlers write durable state")
     rules.append(r4)
